@@ -432,6 +432,16 @@ func genValue(r *mon.Rand, t reflect.Type, depth int) reflect.Value {
 		v.Set(m)
 	case reflect.Interface:
 		v.Set(genContainer(r, t, depth))
+	case reflect.Array:
+		for i := 0; i < t.Len(); i++ {
+			v.Index(i).Set(genValue(r, t.Elem(), depth+1))
+		}
+	case reflect.Slice:
+		sl := reflect.MakeSlice(t, 2, 2)
+		for i := 0; i < 2; i++ {
+			sl.Index(i).Set(genValue(r, t.Elem(), depth+1))
+		}
+		v.Set(sl)
 	}
 	return v
 }
@@ -609,7 +619,7 @@ func dynUniverse(it reflect.Type) []reflect.Type {
 	if it == tShape {
 		return []reflect.Type{tLeaf, tPLeaf, tPMid, tPEmbP}
 	}
-	return []reflect.Type{tLeaf, tPLeaf, tMid, tPMid, tTop, tPTop, tMapAny, tMapStr, tMapL, tMapPL, tMapM, tMapPM, tEmbP, tPEmbP, tEmbD, tEmbV, tEmbH}
+	return []reflect.Type{tLeaf, tPLeaf, tMid, tPMid, tTop, tPTop, tMapAny, tMapStr, tMapL, tMapPL, tMapM, tMapPM, tEmbP, tPEmbP, tEmbD, tEmbV, tEmbH, tArr, tPArr, tMapA2}
 }
 
 var shapeImpls = []reflect.Type{tLeaf, tPLeaf, tPMid, tPEmbP}
@@ -725,15 +735,21 @@ func tryGenCase(r *mon.Rand) *Case {
 		c.Tgt = tString
 	case r.Prob(0.2):
 		c.Tgt = embTypes[r.Intn(len(embTypes))]
+	case r.Prob(0.1):
+		c.Tgt = arrTgtTypes[r.Intn(len(arrTgtTypes))]
 	default:
 		c.Tgt = tgtTypes[r.Intn(len(tgtTypes)-1)]
 	}
+	arrFamily := inTypes(arrTgtTypes, c.Tgt)
 	c.SuccEnd = r.Bool()
 	np := r.Range(1, 3)
 	useStart := r.Prob(0.55)
 	for i := 0; i < np; i++ {
 		p := &pred{Key: fmt.Sprintf("p%d", i)}
-		if r.Prob(0.12) {
+		if arrFamily && r.Prob(0.75) || r.Prob(0.04) {
+			// values of array types only come from positions of array types (or interface-typed ones)
+			p.Type = arrSrcTypes[r.Intn(len(arrSrcTypes))]
+		} else if r.Prob(0.12) {
 			p.Type = mon.PickOne(r, []reflect.Type{tString, tInt, tLeaf, tPLeaf, tMapStr})
 		} else if r.Prob(0.2) {
 			p.Type = embTypes[r.Intn(len(embTypes))]
@@ -974,7 +990,7 @@ func tryGenCase(r *mon.Rand) *Case {
 
 	// the whole successor input taken from one position of a predecessor output (FromField / FromFieldPath)
 	// as the only mapping: all that makes sense for a string, now and then for every other type
-	wholeOnly := c.Tgt == tString || r.Prob(0.07)
+	wholeOnly := c.Tgt == tString || len(tcs) == 0 || r.Prob(0.07)
 	if wholeOnly {
 		if !addMapping(pathCand{}, true) {
 			return nil
@@ -1016,7 +1032,7 @@ func tryGenCase(r *mon.Rand) *Case {
 		}
 	}
 
-	if wantOverlap && c.Tgt != tString {
+	if wantOverlap && c.Tgt != tString && len(tcs) > 0 {
 		nm0, np0, ns0 := len(c.Maps), len(c.Preds), len(c.Statics)
 		if !injectOverlap(r, c, tcs, addMapping) {
 			return nil
@@ -1563,6 +1579,9 @@ func injectHazard(r *mon.Rand, c *Case, roots []reflect.Value) {
 			if m.lt == tInt {
 				wrong = reflect.ValueOf("seven")
 			}
+			if m.lt.Kind() == reflect.Array && r.Bool() {
+				wrong = otherLenArray(r, m.lt)
+			}
 			last := steps[len(steps)-1]
 			opts = append(opts,
 				set(at, nest(r, steps, wrong).Interface(), "interface-source-path-yields-wrong-type"),
@@ -1581,6 +1600,8 @@ func injectHazard(r *mon.Rand, c *Case, roots []reflect.Value) {
 				if m.lt == tNoS {
 					wrong = Leaf{}
 				}
+			} else if m.lt.Kind() == reflect.Array && r.Bool() {
+				wrong = otherLenArray(r, m.lt).Interface()
 			}
 			opts = append(opts,
 				set(sc.Path, wrong, "interface-source-value-of-wrong-type"),
@@ -1629,6 +1650,11 @@ func injectHazard(r *mon.Rand, c *Case, roots []reflect.Value) {
 			c.Hazard = "static-value-of-wrong-type"
 		}
 	}
+}
+
+// otherLenArray: a populated array with the element type of t and one element more (not assignable to t).
+func otherLenArray(r *mon.Rand, t reflect.Type) reflect.Value {
+	return genValue(r, reflect.ArrayOf(t.Len()+1, t.Elem()), 2)
 }
 
 // leafTypeSrc: declared type at a source path (no `any` expansion).
